@@ -68,6 +68,7 @@ def check(case):
         if m and m.groups() and m.group(1):
             deleted.add(m.group(1))
     repaired = missing > 0 and not clean and not assign_only and missing / max(heavy, 1) <= e2e.REPAIR_LIMIT
+    frozen = clean or assign_only or ("--nodebump" in opts and "--noopt" in opts)
     opt_ran = False
     for g, names in A.inp.items():
         entry = A.by_group.get(g)
@@ -92,6 +93,15 @@ def check(case):
             if canon not in out_names and name not in out_names and name not in deleted:
                 res.bad("C03:lost:heavy", f"input heavy atom {name} of {rn} ({g}) is not in the final model "
                         f"and no deletion was reported")  # fmt: skip
+            elif frozen and name not in deleted and (canon in out_names or name in out_names) and \
+                    not (topo.BASE.get(rn, rn) in ("ASP", "GLU") and canon in ("OD1", "OD2", "OE1", "OE2")):
+                # nothing moves in these modes: the atom of that name must BE the input atom; a stand-in at
+                # other coordinates means the input atom was dropped and a new one invented in its place
+                a_ = out_names.get(canon) or out_names.get(name)
+                dd = float(np.linalg.norm(np.array(a_.coords) - names[name]))
+                if dd > 2e-3:
+                    res.bad("C03:replaced-heavy", f"input heavy atom {name} of {rn} ({g}): the model's {canon} is {dd:.3f} A away "
+                            f"(input atom lost, a rebuilt one stands in) in mode {' '.join(opts)}")  # fmt: skip
         if clean or assign_only:
             continue
         exp = A.expected[(ci, i)]
@@ -252,6 +262,34 @@ def check_ffout(case):
     return res
 
 
+def altname_cases():
+    """Every residue type x chain position x heavy-only / all-hydrogen input, written with the
+    alternative (old / other-program) atom names of the topology files wherever one exists, in the
+    modes in which nothing may move: each input atom must arrive under its canonical name at its own
+    coordinates.  Finite, enumerated completely."""
+    from . import c06
+
+    out = []
+    k = 0
+    for name in topo.AA20 + topo.VARIANTS:
+        for pos in "NMC":
+            for hyd in ("none", "all"):
+                for mode in (["--nodebump", "--noopt"], ["--clean"], []):
+                    for altmod in (1, 2):
+                        k += 1
+                        ch = dict(c06._context(k % 3, name, pos), hyd=hyd, altmod=altmod)
+                        if mode == [] and altmod == 2:
+                            continue
+                        out.append(dict(part="altnames", desc=dict(chains=[ch], waters=[]), ff=strat.FFS[k % len(strat.FFS)], opts=list(mode)))
+            if pos in "NC":
+                # neutral termini (PARSE): the alternative names of the terminal oxygens / the heavy atoms stay valid
+                k += 1
+                ch = dict(c06._context(k % 3, name, pos), hyd="none", altmod=1)
+                out.append(dict(part="altnames", desc=dict(chains=[ch], waters=[]), ff="PARSE",
+                                opts=["--nodebump", "--noopt", "--neutraln" if pos == "N" else "--neutralc"]))
+    return out
+
+
 def parts(tier):
     from . import c02, c16
 
@@ -259,6 +297,7 @@ def parts(tier):
         Part("ligand", check_ligand, strategy=c16.complex_case(), budget=dict(quick=160, thorough=3000)),
         Part("na", check_na, strategy=c02.na_case().map(lambda c: dict(c, part="na")), budget=dict(quick=160, thorough=3000)),
         Part("ffout", check_ffout, cases=lambda: ffout_cases(tier), exhaustive=True),
+        Part("altnames", check, cases=altname_cases, exhaustive=True),
         Part("e2e", check, strategy=case(), budget=dict(quick=640, thorough=12000)),
         Part("windows", check, strategy=window_case(), budget=dict(quick=240, thorough=5000)),
     ]
